@@ -630,6 +630,25 @@ Theorem C17_entity_parts_for_every_declaration : forall e fl,
 Proof. exact entity_parts_universal. Qed.
 Print Assumptions C17_entity_parts_for_every_declaration.
 
+Theorem C17_property_names_for_every_declaration : forall e fl,
+  same_names (map f_json (m_fields (state_msg e fl))) (lits_of "acceptState") = true
+  /\ same_names (map f_json (m_fields (event_msg e))) (lits_of "acceptEvent") = true
+  /\ same_names (publish_message_fields e) (lits_of "acceptPublishTopic") = true.
+Proof. exact property_names_universal. Qed.
+Print Assumptions C17_property_names_for_every_declaration.
+
+Theorem C17_formats_for_every_declaration : forall e,
+  fmt_of "acceptQuery" "%sGet" && fmt_of "acceptQuery" "%sList" && fmt_of "acceptQuery" "%sEvents"
+    && fmt_of "acceptQuery" "%sQuery" && fmt_of "acceptPublishTopic" "%sEvent" && fmt_of "acceptPublishTopic" "%sPublish" = true
+  /\ option_map (fun s => (sv_name s, map mt_name (sv_methods s))) (last_svc (query_components e))
+     = Some (sprintf1 (list_ascii_of_string "%sQuery") (query_prefix e) ++ bs "Service",
+             map (fun f => sprintf1 (list_ascii_of_string f) (query_prefix e)) ["%sGet"; "%sList"; "%sEvents"]%string)
+  /\ option_map (fun s => (sv_name s, map mt_name (sv_methods s))) (last_svc (publish_components e))
+     = Some (to_camel (sprintf1 (list_ascii_of_string "%sPublish") (camel_name e)) ++ bs "Topic",
+             [sprintf1 (list_ascii_of_string "%sEvent") (camel_name e)]).
+Proof. exact formats_universal. Qed.
+Print Assumptions C17_formats_for_every_declaration.
+
 Theorem C17_strcase_calls_from_model : strcase_calls_from_model_stmt.
 Proof. exact strcase_calls_from_model. Qed.
 Print Assumptions C17_strcase_calls_from_model.
